@@ -1626,9 +1626,9 @@ def find_optimal(
         float
             The cost achieved with these values.
     """
-    arg_best, best_cost = None, float("inf")
+    arg_best, best_cost = [], float("inf")
     if mode == "max":
-        arg_best, best_cost = None, -float("inf")
+        arg_best, best_cost = [], -float("inf")
     for value in variable.domain:
         assignment[variable.name] = value
         cost = assignment_cost(assignment, constraints)
